@@ -537,7 +537,7 @@ func generateGhost(p *packages.Package, funcs map[string]*ssa.Function, cs *Cont
 		}
 		for i, c := range fc.Ensures {
 			ps := append(append(append([]ghostParam{}, base...), letPs...), resPs...)
-			emit(c, fmt.Sprintf("zz_ens_%s_%d", mn, i), ps, "bool", target, false)
+			emit(c, fmt.Sprintf("zz_ens_%s_%d", mn, i), ps, "bool", target, true) // locals of the function: their value at the return
 		}
 		var ords []int
 		for o := range fc.Loops {
